@@ -362,6 +362,11 @@ func (ex *Exec) visitInstr(fr *frame, instr ssa.Instruction) continuation {
 		p.store(fr.get(instr.Val))
 	case *ssa.If:
 		succ := 1
+		if ex.P.branchProfile {
+			if t, ok := fr.get(instr.Cond).(*Term); ok && !t.IsConst() && ex.dpos >= len(ex.prefix) {
+				ex.res.DecisionKinds["if@"+fr.fn.String()]++
+			}
+		}
 		if ex.branch(fr.get(instr.Cond)) {
 			succ = 0
 		}
